@@ -1,7 +1,9 @@
 (* Model/Config.v — config.go:101-220, 267-287 Load / buildServiceList / reload and plugins/auth_jwt.go:82-108 Configure:
    a state machine over the contents of the configuration file.  [fixed = true] is the code as it is now (after the
    fix: commits that reset the service list and the JWT plugin configuration before decoding); [fixed = false] is the
-   behaviour at d802d19, kept for the refutation theorems. *)
+   behaviour at d802d19, kept for the refutation theorems.  [pfixed] does the same for the services contributed by
+   plugins: false = Load builds the list with the plugins enabled by the PREVIOUS load (d802d19), true = with those
+   this load enables, after checking the list of the files and the environment as a fresh start does. *)
 From V Require Import Base.Util.
 
 (* what one version of the file says (None = the key is omitted) *)
@@ -10,13 +12,17 @@ Record file := { f_loadable : bool;                           (* false: invalid 
                                                                  duration, Some false = an invalid one, None = key omitted *)
                  f_services : option (list string);           (* the "services" key as far as the decoder got *)
                  f_roles : option (list (string * string));   (* auth-jwt "roles": role -> permissions (as text) *)
-                 f_keys : option (list string) }.             (* auth-jwt "public-keys": key ids *)
+                 f_keys : option (list string);               (* auth-jwt "public-keys": key ids *)
+                 f_plug : list string }.                      (* addresses of the services contributed by the plugins this file
+                                                                 enables (Plugin.GraphqlQueryPath), [] when it enables none *)
 
 Record cstate := { cs_mem : list string;                      (* Config.Services (in memory) *)
                    cs_eff : list string;                      (* ExecutableSchema.Services: what is federated *)
                    cs_roles : list (string * string);         (* JWT plugin role table *)
                    cs_keys : list string;                     (* JWT plugin accepted key ids *)
-                   cs_poll_ok : bool }.                       (* Config.PollInterval (in memory) parses as a duration *)
+                   cs_poll_ok : bool;                         (* Config.PollInterval (in memory) parses as a duration *)
+                   cs_plug : list string }.                   (* services contributed by Config.plugins, the plugins the last
+                                                                 completed Load enabled *)
 
 Definition union_set (a b : list string) : list string := dedupe_str (a ++ b).
 Fixpoint upsert_all {A} (new old : list (string * A)) : list (string * A) :=
@@ -24,6 +30,7 @@ Fixpoint upsert_all {A} (new old : list (string * A)) : list (string * A) :=
 
 Section Config.
   Variable fixed : bool.
+  Variable pfixed : bool.
   Variable env : list string.                                 (* BRAMBLE_SERVICE_LIST *)
 
   (* config.go:101 Load followed by plugin Configure; returns None when Load fails *)
@@ -33,32 +40,37 @@ Section Config.
     (* scalar settings are decoded over the in-memory value and are NOT reset: an invalid duration stays until a later
        file sets the key again (config.go:112, :127) *)
     let poll := match f_poll f with Some b => b | None => cs_poll_ok st end in
-    let failed := {| cs_mem := mem1; cs_eff := cs_eff st; cs_roles := cs_roles st; cs_keys := cs_keys st; cs_poll_ok := poll |} in
+    let failed := {| cs_mem := mem1; cs_eff := cs_eff st; cs_roles := cs_roles st; cs_keys := cs_keys st; cs_poll_ok := poll; cs_plug := cs_plug st |} in
     if negb (f_loadable f) || negb poll then (failed, false)
     else
-      let services := union_set mem1 env in
-      match services with
+      let base := union_set mem1 env in
+      (* the list Load checks for emptiness *)
+      let checked := if pfixed then base else union_set base (cs_plug st) in
+      match checked with
       | [] => (failed, false)
       | _ =>
+        let services := if pfixed then union_set base (f_plug f) else checked in
         let roles := match f_roles f with
                      | Some r => if fixed then upsert_all r [] else upsert_all r (cs_roles st)
                      | None => if fixed then [] else cs_roles st end in
         let keys := match f_keys f with
                     | Some k => if fixed then dedupe_str k else union_set (cs_keys st) k
                     | None => if fixed then [] else cs_keys st end in
-        ({| cs_mem := services; cs_eff := cs_eff st; cs_roles := roles; cs_keys := keys; cs_poll_ok := poll |}, true)
+        ({| cs_mem := services; cs_eff := cs_eff st; cs_roles := roles; cs_keys := keys; cs_poll_ok := poll; cs_plug := f_plug f |}, true)
       end.
 
   (* config.go:267 reload: Load, then hand the list to the executable schema *)
   Definition reload (st : cstate) (f : file) : cstate :=
     let '(st', ok) := load st f in
-    if ok then {| cs_mem := cs_mem st'; cs_eff := cs_mem st'; cs_roles := cs_roles st'; cs_keys := cs_keys st'; cs_poll_ok := cs_poll_ok st' |} else st'.
+    if ok then {| cs_mem := cs_mem st'; cs_eff := cs_mem st'; cs_roles := cs_roles st'; cs_keys := cs_keys st'; cs_poll_ok := cs_poll_ok st'; cs_plug := cs_plug st' |} else st'.
 
-  Definition zero := {| cs_mem := []; cs_eff := []; cs_roles := []; cs_keys := []; cs_poll_ok := true |}.
-  (* a freshly started gateway on file f (GetConfig + Init) *)
+  Definition zero := {| cs_mem := []; cs_eff := []; cs_roles := []; cs_keys := []; cs_poll_ok := true; cs_plug := [] |}.
+  (* a freshly started gateway on file f: GetConfig (Load with no plugin enabled yet), then Init, which builds the list
+     once more now that the plugins are configured (config.go:356) *)
   Definition fresh (f : file) : option cstate :=
     let '(st', ok) := load zero f in
-    if ok then Some {| cs_mem := cs_mem st'; cs_eff := cs_mem st'; cs_roles := cs_roles st'; cs_keys := cs_keys st'; cs_poll_ok := cs_poll_ok st' |} else None.
+    let services := union_set (cs_mem st') (cs_plug st') in
+    if ok then Some {| cs_mem := services; cs_eff := services; cs_roles := cs_roles st'; cs_keys := cs_keys st'; cs_poll_ok := cs_poll_ok st'; cs_plug := cs_plug st' |} else None.
 End Config.
 
 (* what the property compares: federated services as a set, role table, key ids *)
